@@ -306,7 +306,12 @@ func genHistory(r *lib.Rng, t0 int64, ae bool, handlerLevel bool) []Op {
 	ops := []Op{}
 	t := t0
 	nid := r.Range(2, len(idStrings)-1)
-	if r.Chance(1, 12) { // a wide history: many ids, many operations (store level mostly: cheap)
+	veryWide := false
+	if !handlerLevel && r.Chance(1, 40) { // a very wide store-level history: past 1024 live entries on one list
+		veryWide = true
+		nid = r.Range(1100, 1600)
+		n = r.Range(50, 200)
+	} else if r.Chance(1, 12) { // a wide history: many ids, many operations (store level mostly: cheap)
 		nid = r.Range(20, 400)
 		n = r.Range(nid, 2*nid)
 		if handlerLevel {
@@ -320,6 +325,11 @@ func genHistory(r *lib.Rng, t0 int64, ae bool, handlerLevel bool) []Op {
 		return uint64(1 + r.Intn(nid))
 	}
 	pickExp := func() int64 {
+		if r.Chance(1, 14) { // extremes: far past / far future / the int64 range ends (overflowing "remaining time" arithmetic)
+			ext := []int64{t - 10000000000, t - 9223372037, t - 9300000000, t - 18446744074, -9223372036854775808, -9223372036854775807,
+				-1, 0, 1, t + 9223372037, t + 10000000000, 9223372036854775807, 9223372036854775806, t - 31536000*300, t + 31536000*300}
+			return ext[r.Intn(len(ext))]
+		}
 		switch r.Intn(10) {
 		case 0:
 			return t - int64(r.Range(1, 5)) // in the past
@@ -329,6 +339,16 @@ func genHistory(r *lib.Rng, t0 int64, ae bool, handlerLevel bool) []Op {
 			return t + 1000000
 		}
 		return t + int64(r.Range(1, 6))
+	}
+	if veryWide { // bulk phase: every id denied (or allowed) with a live expiry, then the lists are read
+		k := "ODeny"
+		if r.Bool() {
+			k = "OAllow"
+		}
+		for id := 1; id <= nid; id++ {
+			ops = append(ops, Op{K: k, ID: uint64(id), E: t + int64(r.Range(100, 2000))})
+		}
+		ops = append(ops, Op{K: "OGetDeny"}, Op{K: "OGetAllow"})
 	}
 	abandonAt := -1 // at most one abandoned deny per history, in a fifth of the handler-level histories
 	if handlerLevel && r.Chance(1, 5) {
